@@ -52,7 +52,23 @@ func NewWorkspace(rootURI string, loader *include.Loader) *Workspace {
 func (w *Workspace) Initialize() error {
 	w.mu.Lock()
 	defer w.mu.Unlock()
+	return w.initializeLocked()
+}
 
+// Reload builds the view again from the files and lays the texts of the open documents
+// (path -> text, asked for while the lock is held) over it, in one step: no reader sees
+// the state in between, and an update that arrives meanwhile is applied afterwards.
+func (w *Workspace) Reload(open func() map[string]string) error {
+	w.mu.Lock()
+	defer w.mu.Unlock()
+	err := w.initializeLocked()
+	for path, text := range open() {
+		w.updateFileLocked(path, text)
+	}
+	return err
+}
+
+func (w *Workspace) initializeLocked() error {
 	w.loadErrors = nil
 	w.parseErrors = nil
 	w.cachedFormats = nil
@@ -257,7 +273,10 @@ func (w *Workspace) UpdateFile(path, content string) {
 	}
 	w.mu.Lock()
 	defer w.mu.Unlock()
+	w.updateFileLocked(path, content)
+}
 
+func (w *Workspace) updateFileLocked(path, content string) {
 	if w.rootJournalPath == "" || w.index == nil {
 		return
 	}
